@@ -169,6 +169,9 @@ class HistEngine(EngineBase):
             if r["status"] != "ok":
                 break
         at = ch.draw(total + 1, "fault.at") if total else 0
+        if ch.chance(1, 3, "fault.site"):
+            # inside a callback: right after the extension recorded a flag (there are about as many such calls as callbacks)
+            return {"site": "meta", "at": ch.draw(max(1, total + 1), "fault.meta.at"), "when": "post", "exc": ch.choice(FAULT_EXC, "fault.exc")}
         return {"at": at, "when": ch.choice(["pre", "post"], "fault.when"), "exc": ch.choice(FAULT_EXC, "fault.exc")}
 
     # ------------------------------------------------------------------ execution
